@@ -76,7 +76,9 @@ func runTotal(hdr Header, c any, src string) CaseResult {
 			rs, rerr = s.Resolve(&jsonschema.ResolveOptions{ValidateDefaults: true})
 			if rerr == nil {
 				res.Evals += 4
-				for _, in := range []any{nil, 1.0, "a", []any{1.0, "a"}, map[string]any{"a": 1.0}} {
+				// (numbers also as json.Number, with exponents beyond what exact arithmetic accepts)
+				for _, in := range []any{nil, 1.0, "a", []any{1.0, "a"}, map[string]any{"a": 1.0}, json.Number("1e9999999"), json.Number("-1E-9999999"),
+					json.Number("1.5"), []any{json.Number("1e9999999"), json.Number("2")}, map[string]any{"a": json.Number("1e9999999")}} {
 					rs.Validate(in)
 				}
 				for _, inst := range []any{map[string]any{}, nil, map[string]any{"a": nil}, []any{nil}, 1.0} {
@@ -253,7 +255,7 @@ func runBU(cm map[string]any, res CaseResult, fail func(string, any, any, any) C
 		if err == nil {
 			verr := rs.Validate(map[string]any{"a": 1.0})
 			rs.Validate("x")
-			for _, in := range []any{1.0, 0.0, -1.5, json.Number("1e400"), []any{1.0, "x"}, math.MaxFloat64} {
+			for _, in := range []any{1.0, 0.0, -1.5, json.Number("1e400"), json.Number("1e9999999"), []any{1.0, "x"}, math.MaxFloat64} {
 				rs.Validate(in)
 			}
 			if op == "validate" && verr == nil {
